@@ -1,23 +1,41 @@
 """C12 -- API-mode modules reflect the C source and detect mismatches.
 
-Per generated C source three modules are compiled:
-  A  cdef identical to the source: every declared item reachable; layouts and
-     addresses are those reported by C helper functions compiled in the same
-     source (sizeof/offsetof/&global); functions return what an independent
-     Python model of their arithmetic body gives; globals read/written through
-     lib are observed by C getters/setters and vice versa; no error anywhere.
+Per generated C source six modules are compiled:
+  A  cdef identical to the source: every declared item reachable (dir(lib),
+     ffi.list_types()); layouts and addresses are those reported by C helper
+     functions compiled in the same source (sizeof/offsetof/&global);
+     functions return what an independent Python model of their arithmetic
+     body gives; globals (arithmetic, arrays with fixed / '[...]' / '[]'
+     lengths, pointers, structs) read/written through lib are observed by C
+     getters/setters and vice versa; typedefs of primitives (exact and
+     'int...'/'float...') have the compiler's size and signedness; integer
+     constants over the whole 64-bit range, non-integer constants; structs
+     with bitfields are written/read field by field through cffi and through
+     C accessors alternately; no error anywhere.
   M  the same source with single-point mutations of the cdef (per item, p=1/2):
-     struct field retyped / removed / swapped, constant value changed,
-     enumerator changed.  Using a mutated item whose layout/value really
-     differs must raise; its unmutated neighbours must not.
+     struct/union field retyped / removed / swapped / resized, directed
+     'only the field size differs', 'only the offsets differ' and 'only the
+     total size differs' mutations,
+     constant value changed (by one, sign, high 32 bits only, same 64-bit
+     pattern with the other sign), enumerator changed.  Using a mutated item
+     whose layout/value really differs must raise -- through whichever entry
+     point touches it first (new, item of a new array, offsetof, alignof, .fields,
+     field read / addressof through a cast pointer, dereference, dir(), the
+     enclosing struct) and again on every later use; its unmutated neighbours
+     must not.
   D  the mutated structs / constants declared with '...': no error, the
-     compiler's layout and values are used.
+     compiler's layout and values are used; unmutated structs with array
+     fields are declared with '[...]' lengths (all dimensions).
   PA the structs under '#pragma pack(1)' in the source and cdef(packed=True):
      agreement with the compiler's packed layout, no error.
   PM packed source, packed cdef with the mutated structs: a mutation that moves
      a field or changes the size must raise.
   PN cdef(packed=True) over a source that is *not* packed: must raise exactly
      for the structs whose natural layout has padding.
+Aggregates come as 'struct tag', 'union tag', 'typedef struct {..} name_t',
+'typedef union {..} name_t', 'struct tag + typedef' and 'typedef struct {..}
+*name_p' (only reachable through the pointer typedef); some structs nest an
+earlier aggregate by value and by pointer.
 Constants are also used as array lengths inside type strings ('char[K3]'):
 the agreeing module gives sizeof == value, the mutated one must raise.
 """
@@ -25,61 +43,167 @@ import os, sys, random, struct
 from vlib import core, modbuild
 
 RULE = ("case = one declared item of a generated (cdef, C source) pair in module A (agreement), M "
-        "(mutated cdef) or D (mutated + '...'); items: structs of 1-6 fields over integer/float/"
-        "pointer/array types, #define / static const / enumerator constants, arithmetic functions, "
-        "globals; distinct = (module kind, item declaration); non-trivial = struct with >= 2 "
-        "fields, or a constant/function/global")
+        "(mutated cdef) or D (mutated + '...'); items: structs/unions (tagged, typedef'd anonymous, "
+        "reachable only through a pointer typedef, nesting other aggregates) of 1-7 fields over "
+        "integer/float/pointer/1-D and 2-D array types, #define / static const int / long long / "
+        "unsigned long long / enumerator constants over the 64-bit range, double and string "
+        "constants, primitive typedefs (exact and '...'), arithmetic and variadic functions, "
+        "arithmetic / array / pointer / struct globals; distinct = (module kind, item declaration, "
+        "first entry point); non-trivial = aggregate with >= 2 fields, or a constant/function/global")
 ASSUMPTIONS = ["a mutation must be detected iff it changes a field offset, a field size or the total size (computed with a natural-alignment model, cross-checked against the compiler's own sizeof/offsetof in module A)",
-               "the error class is ffi.error or VerificationError"]
+               "the error class is ffi.error or VerificationError",
+               "ffi.sizeof() of a mismatching struct may succeed (it does not need the fields) but must then give the compiler's size",
+               "a struct that embeds a mismatching struct by value may raise as well; if it does not, its layout must be the compiler's"]
 
 FT = [('char', 1), ('short', 2), ('int', 4), ('long', 8), ('long long', 8), ('unsigned char', 1),
       ('unsigned int', 4), ('float', 4), ('double', 8), ('void *', 8), ('int8_t', 1),
       ('uint16_t', 2), ('int64_t', 8)]
 ARITH = ['int', 'unsigned int', 'short', 'long', 'unsigned long long', 'signed char', 'double',
          'float', '_Bool', 'uint16_t']
+ARRN = [0, 0, 0, 0, 0, 1, 2, 3, 3, 5, [2, 3], [3, 2]]
+FORMS = ['tag'] * 5 + ['union', 'union', 'anon', 'anon', 'anon-union', 'tdef', 'ptr', 'ptr']
+NSTRUCT = 16
+NNESTED = 3
+CVALS = [0, 1, 42, 255, 65536, 2 ** 31 - 1, 2 ** 31, 2 ** 32 - 1, 2 ** 32, 2 ** 63 - 1, 2 ** 63,
+         2 ** 64 - 1, -1, -2 ** 31, -2 ** 31 - 1, -2 ** 63]
+TDT = [('signed char', 1, 1), ('unsigned char', 1, 0), ('short', 2, 1), ('unsigned short', 2, 0),
+       ('int', 4, 1), ('unsigned int', 4, 0), ('long', 8, 1), ('unsigned long', 8, 0),
+       ('long long', 8, 1), ('unsigned long long', 8, 0), ('int8_t', 1, 1), ('uint32_t', 4, 0),
+       ('float', 4, None), ('double', 8, None)]
+BFT = ['int', 'unsigned int', 'unsigned char', 'short', 'unsigned short', 'long long',
+       'unsigned long long']
+GAT = [('int', 4), ('short', 2), ('unsigned char', 1), ('long long', 8), ('unsigned int', 4)]
+FIELD_SIZE_OPS = ('retype', 'resize-array', 'size-only')
 
 
-def layout(fields):
-    """natural-alignment layout: [(name, offset, size)], total size"""
-    off, maxal, out = 0, 1, []
-    for name, (T, sz), n in fields:
-        al = sz
-        size = sz * (n or 1)
+def dims(n):
+    if not n:
+        return []
+    return list(n) if isinstance(n, (list, tuple)) else [n]
+
+
+def nelem(n):
+    r = 1
+    for d in dims(n):
+        r *= d
+    return r
+
+
+def talign(T):
+    return T[2] if len(T) > 2 else T[1]
+
+
+def tclass(T):
+    if len(T) > 2:
+        return 's'
+    if T[0] in ('float', 'double'):
+        return 'f'
+    return 'p' if T[0].endswith('*') else 'i'
+
+
+def is_union(it):
+    return it['form'] in ('union', 'anon-union')
+
+
+def layout(fields, union=False, packed=False):
+    """natural-alignment (or packed) layout: [(name, offset, size)], total size"""
+    off, maxal, out, end = 0, 1, [], 0
+    for name, T, n in fields:
+        al = 1 if packed else talign(T)
+        size = T[1] * nelem(n)
+        if union:
+            off = 0
         off = (off + al - 1) // al * al
         out.append((name, off, size))
         off += size
+        end = max(end, off)
         maxal = max(maxal, al)
-    total = (off + maxal - 1) // maxal * maxal
+    total = (end + maxal - 1) // maxal * maxal
     return out, max(total, 1)
 
 
-def packed_layout(fields):
-    off, out = 0, []
-    for name, (T, sz), n in fields:
-        size = sz * (n or 1)
-        out.append((name, off, size))
-        off += size
-    return out, max(off, 1)
+def packed_layout(fields, union=False):
+    return layout(fields, union, True)
 
 
-def render_struct(name, fields, dots=False):
-    fs = ' '.join('%s %s%s;' % (T, fn, '[%d]' % n if n else '') for fn, (T, sz), n in fields)
-    return 'struct %s { %s%s };' % (name, fs, ' ...;' if dots else '')
+def c_tname(it):
+    """the name of the aggregate type in the C source"""
+    if it['form'] == 'tag':
+        return 'struct ' + it['name']
+    if it['form'] == 'union':
+        return 'union ' + it['name']
+    return it['name'] + '_t'
+
+
+def arr_suffix(n, dotarr=False):
+    return ''.join('[%s]' % ('...' if dotarr else d) for d in dims(n))
+
+
+def render_struct(it, fields=None, dots=False, dotarr=False, for_c=False):
+    if fields is None:
+        fields = it['fields']
+    fs = ' '.join('%s %s%s;' % (T[0], fn, arr_suffix(n, dotarr)) for fn, T, n in fields)
+    body = '{ %s%s }' % (fs, ' ...;' if dots else '')
+    f, name = it['form'], it['name']
+    kw = 'union' if is_union(it) else 'struct'
+    if f in ('tag', 'union'):
+        return '%s %s %s;' % (kw, name, body)
+    if f in ('anon', 'anon-union'):
+        return 'typedef %s %s %s_t;' % (kw, body, name)
+    if f == 'tdef':
+        return 'struct %s %s; typedef struct %s %s_t;' % (name, body, name, name)
+    if for_c:
+        return 'typedef struct %s %s_t, *%s_p;' % (body, name, name)
+    return 'typedef struct %s *%s_p;' % (body, name)
+
+
+def clit(v):
+    if v >= 2 ** 63:
+        return '%dULL' % v
+    if v == -2 ** 63:
+        return '(-9223372036854775807LL-1)'
+    if abs(v) >= 2 ** 31:
+        return '(%dLL)' % v
+    return '(%d)' % v
+
+
+CFORM_T = {'static': 'int', 'static-ll': 'long long', 'static-ull': 'unsigned long long'}
 
 
 def gen_source(seed):
     rnd = random.Random(seed)
     items = []
-    for i in range(16):
+    for i in range(NSTRUCT):
         nf = rnd.choice([1, 2, 3, 3, 4, 6])
-        fields = [('f%d' % j, rnd.choice(FT), rnd.choice([0, 0, 0, 3])) for j in range(nf)]
-        items.append({'kind': 'struct', 'name': 's%d' % i, 'fields': fields})
-    for i in range(8):
-        v = rnd.choice([0, 1, 42, 255, 65536, 2 ** 31 - 1, rnd.randint(-10 ** 6, 10 ** 6)])
-        form = rnd.choice(['define', 'static'])
-        if form == 'define':
-            v = abs(v)
-        items.append({'kind': 'const', 'name': 'K%d' % i, 'value': v, 'form': form})
+        fields = [('f%d' % j, rnd.choice(FT), rnd.choice(ARRN)) for j in range(nf)]
+        it = {'kind': 'struct', 'name': 's%d' % i, 'fields': fields, 'form': rnd.choice(FORMS),
+              'nested': None, 'dotarr': rnd.random() < 0.6}
+        if i >= NSTRUCT - NNESTED:
+            # nests an earlier aggregate by value (possibly in an array) and maybe by pointer
+            it['form'] = rnd.choice(['tag', 'tag', 'anon'])
+            cand = [x for x in range(NSTRUCT - NNESTED) if items[x]['form'] != 'ptr']
+            ni = rnd.choice(cand)
+            inner = items[ni]
+            _, itot = layout(inner['fields'], is_union(inner))
+            ial = max(talign(T) for _, T, _ in inner['fields'])
+            fields.insert(rnd.randrange(len(fields) + 1),
+                          ('n%d' % i, (c_tname(inner), itot, ial), rnd.choice([0, 0, 2])))
+            if rnd.random() < 0.5:
+                fields.insert(rnd.randrange(len(fields) + 1),
+                              ('q%d' % i, (c_tname(inner) + ' *', 8), 0))
+            it['nested'] = ni
+        items.append(it)
+    for i in range(10):
+        v = rnd.choice(CVALS + [rnd.randint(-10 ** 6, 10 ** 6)] * 8 + [rnd.randint(1, 3000)] * 4 +
+                       [rnd.randint(-2 ** 63, 2 ** 64 - 1)] * 4)
+        forms = ['define', 'define']
+        if -2 ** 31 <= v < 2 ** 31:
+            forms += ['static', 'static']
+        if -2 ** 63 <= v < 2 ** 63:
+            forms.append('static-ll')
+        if v >= 0:
+            forms.append('static-ull')
+        items.append({'kind': 'const', 'name': 'K%d' % i, 'value': v, 'form': rnd.choice(forms)})
     for i in range(4):
         vals = []
         cur = rnd.randint(-5, 5)
@@ -91,31 +215,65 @@ def gen_source(seed):
         args = [rnd.choice(ARITH) for _ in range(rnd.randrange(0, 4))]
         items.append({'kind': 'func', 'name': 'fn%d' % i, 'args': args, 'ret': rnd.choice(ARITH),
                       'k': rnd.randint(1, 9)})
+    items.append({'kind': 'vfunc', 'name': 'vsum0', 'k': rnd.randint(1, 9)})
     for i in range(6):
         items.append({'kind': 'glob', 'name': 'g%d' % i, 'type': rnd.choice(ARITH[:6] + ['double']),
-                      'init': rnd.randint(1, 100)})
+                      'init': rnd.randint(1, 100), 'extern': rnd.random() < 0.5})
+    for i in range(4):
+        form = rnd.choice(['fixed', 'dots', 'dots', 'open'])
+        d = rnd.choice([[1], [2], [5], [7], [2, 3], [3, 2], [4, 1]])
+        if form == 'open':
+            d = d[:1]
+        items.append({'kind': 'garr', 'name': 'ga%d' % i, 'type': rnd.choice(GAT), 'dims': d,
+                      'form': form, 'extern': rnd.random() < 0.5})
+    items.append({'kind': 'gptr', 'name': 'gp0', 'type': rnd.choice(GAT),
+                  'extern': rnd.random() < 0.5})
+    for i in range(2):
+        si = rnd.choice([x for x in range(NSTRUCT) if items[x]['form'] != 'ptr'])
+        # the first scalar integer field is written from Python and read back by C
+        fld = [fn for fn, T, n in items[si]['fields'] if tclass(T) == 'i' and not n
+               and T[0] != 'char']
+        items.append({'kind': 'gstruct', 'name': 'gs%d' % i, 'struct': si,
+                      'field': fld[0] if fld else None, 'extern': rnd.random() < 0.5})
+    for i in range(2):
+        # structs with bitfields: positions are computed by cffi, the total size is the compiler's
+        fields = []
+        for j in range(rnd.choice([2, 3, 4, 6])):
+            T = rnd.choice(BFT)
+            w = rnd.choice([None, rnd.randint(1, 8 * ISIZE[T][0] - 1), rnd.randint(1, 8)])
+            fields.append(('b%d' % j, T, w))
+        items.append({'kind': 'bstruct', 'name': 'bf%d' % i, 'fields': fields})
+    for i in range(3):
+        k = rnd.choice(['double', 'float', 'string'])
+        items.append({'kind': 'nconst', 'name': 'KN%d' % i, 'ctype': k,
+                      'value': rnd.randint(-1000, 1000) + 0.25 if k != 'string'
+                      else 'str%d' % rnd.randint(0, 99999)})
+    for i in range(4):
+        items.append({'kind': 'tdef', 'name': 'td%d_t' % i, 'type': rnd.choice(TDT),
+                      'dots': rnd.random() < 0.5})
     return items
 
 
 def c_source(items, packed=False):
-    out = ['#include <stdint.h>', '#include <stddef.h>']
+    out = ['#include <stdint.h>', '#include <stddef.h>', '#include <stdarg.h>']
     if packed:
         out.append('#pragma pack(1)')
     for it in items:
         k = it['kind']
+        n = it['name']
         if k == 'struct':
-            out.append(render_struct(it['name'], it['fields']))
-            out.append('size_t sz_%s(void) { return sizeof(struct %s); }' % (it['name'], it['name']))
+            out.append(render_struct(it, for_c=True))
+            ct = c_tname(it)
+            out.append('size_t sz_%s(void) { return sizeof(%s); }' % (n, ct))
             for fn, _, _ in it['fields']:
-                out.append('size_t of_%s_%s(void) { return offsetof(struct %s, %s); }' %
-                           (it['name'], fn, it['name'], fn))
+                out.append('size_t of_%s_%s(void) { return offsetof(%s, %s); }' % (n, fn, ct, fn))
         elif k == 'const':
             if it['form'] == 'define':
-                out.append('#define %s %d' % (it['name'], it['value']))
+                out.append('#define %s %s' % (n, clit(it['value'])))
             else:
-                out.append('static const int %s = %d;' % (it['name'], it['value']))
+                out.append('static const %s %s = %s;' % (CFORM_T[it['form']], n, clit(it['value'])))
         elif k == 'enum':
-            out.append('enum %s { %s };' % (it['name'], ', '.join('%s = %d' % v for v in it['values'])))
+            out.append('enum %s { %s };' % (n, ', '.join('%s = %d' % v for v in it['values'])))
         elif k == 'func':
             params = ', '.join('%s a%d' % (a, i) for i, a in enumerate(it['args'])) or 'void'
             terms = ['%dLL' % it['k']] + ['(%d * (long long)a%d)' % (i + 2, i)
@@ -125,13 +283,59 @@ def c_source(items, packed=False):
                 body += ' return (acc & 1) != 0;'
             else:
                 body += ' return (%s)acc;' % it['ret']
-            out.append('%s %s(%s) { %s }' % (it['ret'], it['name'], params, body))
+            out.append('%s %s(%s) { %s }' % (it['ret'], n, params, body))
+        elif k == 'vfunc':
+            out.append('long long %s(int n, ...) { va_list ap; long long s = %d; va_start(ap, n); '
+                       'while (n-- > 0) s += va_arg(ap, long long); va_end(ap); return s; }'
+                       % (n, it['k']))
         elif k == 'glob':
-            T, n = it['type'], it['name']
+            T = it['type']
             out.append('%s %s = %d;' % (T, n, it['init']))
             out.append('%s get_%s(void) { return %s; }' % (T, n, n))
             out.append('void set_%s(%s v) { %s = v; }' % (n, T, n))
             out.append('void *addr_%s(void) { return &%s; }' % (n, n))
+        elif k == 'garr':
+            T = it['type'][0]
+            tot = nelem(it['dims'])
+            out.append('%s %s%s = { %s };' % (T, n, arr_suffix(it['dims']),
+                                              ', '.join(str(j + 1) for j in range(tot))
+                                              if len(it['dims']) == 1 else
+                                              ', '.join('{ %s }' % ', '.join(
+                                                  str(a * it['dims'][1] + b + 1)
+                                                  for b in range(it['dims'][1]))
+                                                  for a in range(it['dims'][0]))))
+            out.append('long long get_%s(int i) { return (long long)((%s *)%s)[i]; }' % (n, T, n))
+            out.append('void *addr_%s(void) { return %s; }' % (n, n))
+            out.append('size_t sz_%s(void) { return sizeof(%s); }' % (n, n))
+        elif k == 'gptr':
+            T = it['type'][0]
+            out.append('static %s tgt_%s[2] = { 11, 22 }; %s *%s = tgt_%s;' % (T, n, T, n, n))
+            out.append('long long get_%s(void) { return (long long)*%s; }' % (n, n))
+            out.append('void *addr_%s(void) { return &%s; }' % (n, n))
+        elif k == 'gstruct':
+            st = items[it['struct']]
+            out.append('%s %s;' % (c_tname(st), n))
+            out.append('void *addr_%s(void) { return &%s; }' % (n, n))
+            if it['field']:
+                out.append('long long get_%s(void) { return (long long)%s.%s; }' % (n, n, it['field']))
+        elif k == 'bstruct':
+            out.append('struct %s { %s };' % (n, ' '.join(
+                '%s %s%s;' % (T, fn, ':%d' % w if w else '') for fn, T, w in it['fields'])))
+            out.append('size_t sz_%s(void) { return sizeof(struct %s); }' % (n, n))
+            for fn, T, w in it['fields']:
+                out.append('long long rd_%s_%s(struct %s *p) { return (long long)p->%s; }' %
+                           (n, fn, n, fn))
+                out.append('void wr_%s_%s(struct %s *p, long long v) { p->%s = (%s)v; }' %
+                           (n, fn, n, fn, T))
+        elif k == 'nconst':
+            if it['ctype'] == 'string':
+                out.append('static const char *const %s = "%s";' % (n, it['value']))
+            else:
+                out.append('static const %s %s = %r;' % (it['ctype'], n, it['value']))
+        elif k == 'tdef':
+            out.append('typedef %s %s;' % (it['type'][0], n))
+            out.append('size_t sz_%s(void) { return sizeof(%s); }' % (n, n))
+            out.append('int sg_%s(void) { return (%s)-1 < 0; }' % (n, n))
     return '\n'.join(out) + '\n'
 
 
@@ -139,57 +343,130 @@ def cdef_text(items, mutated=None, dots=False):
     out = []
     for idx, it in enumerate(items):
         k = it['kind']
+        n = it['name']
         m = (mutated or {}).get(idx)
+        ext = 'extern ' if it.get('extern') else ''
         if k == 'struct':
             fields = m['fields'] if m else it['fields']
-            out.append(render_struct(it['name'], fields, dots=dots and bool(m)))
+            if dots and it['form'] == 'ptr':
+                # '...' needs a C name for the struct itself: declared exactly
+                out.append(render_struct(it))
+            else:
+                out.append(render_struct(it, fields, dots=dots and bool(m),
+                                         dotarr=dots and not m and it['dotarr']))
             if not mutated:
-                out.append('size_t sz_%s(void);' % it['name'])
+                out.append('size_t sz_%s(void);' % n)
                 for fn, _, _ in it['fields']:
-                    out.append('size_t of_%s_%s(void);' % (it['name'], fn))
+                    out.append('size_t of_%s_%s(void);' % (n, fn))
         elif k == 'const':
             v = m['value'] if m else it['value']
             if dots and m:
-                out.append('#define %s ...' % it['name'] if it['form'] == 'define' else
-                           'static const int %s;' % it['name'])
+                out.append('#define %s ...' % n if it['form'] == 'define' else
+                           'static const %s %s;' % (CFORM_T[it['form']], n))
             elif it['form'] == 'define':
-                out.append('#define %s %d' % (it['name'], v))
+                out.append('#define %s %d' % (n, v))
             else:
-                out.append('static const int %s = %d;' % (it['name'], v))
+                out.append('static const %s %s = %d;' % (CFORM_T[it['form']], n, v))
         elif k == 'enum':
             vals = m['values'] if m else it['values']
             if dots and m:
-                out.append('enum %s { %s, ... };' % (it['name'], ', '.join(
-                    '%s = ...' % n if (n, v) not in it['values'] else '%s = %d' % (n, v)
-                    for n, v in vals)))
+                out.append('enum %s { %s, ... };' % (n, ', '.join(
+                    '%s = ...' % en if (en, v) not in it['values'] else '%s = %d' % (en, v)
+                    for en, v in vals)))
             else:
-                out.append('enum %s { %s };' % (it['name'], ', '.join('%s = %d' % v for v in vals)))
-        elif k == 'func' and not mutated:
-            out.append('%s %s(%s);' % (it['ret'], it['name'], ', '.join(it['args']) or 'void'))
-        elif k == 'glob' and not mutated:
-            T, n = it['type'], it['name']
-            out.append('%s %s; %s get_%s(void); void set_%s(%s v); void *addr_%s(void);' %
-                       (T, n, T, n, n, T, n))
+                out.append('enum %s { %s };' % (n, ', '.join('%s = %d' % v for v in vals)))
+        elif mutated:
+            continue
+        elif k == 'func':
+            out.append('%s %s(%s);' % (it['ret'], n, ', '.join(it['args']) or 'void'))
+        elif k == 'vfunc':
+            out.append('long long %s(int n, ...);' % n)
+        elif k == 'glob':
+            T = it['type']
+            out.append('%s%s %s; %s get_%s(void); void set_%s(%s v); void *addr_%s(void);' %
+                       (ext, T, n, T, n, n, T, n))
+        elif k == 'garr':
+            suffix = {'fixed': arr_suffix(it['dims']), 'dots': arr_suffix(it['dims'], True),
+                      'open': '[]'}[it['form']]
+            out.append('%s%s %s%s; long long get_%s(int i); void *addr_%s(void); size_t sz_%s(void);'
+                       % (ext, it['type'][0], n, suffix, n, n, n))
+        elif k == 'gptr':
+            out.append('%s%s *%s; long long get_%s(void); void *addr_%s(void);' %
+                       (ext, it['type'][0], n, n, n))
+        elif k == 'gstruct':
+            out.append('%s%s %s; void *addr_%s(void);' % (ext, c_tname(items[it['struct']]), n, n))
+            if it['field']:
+                out.append('long long get_%s(void);' % n)
+        elif k == 'bstruct':
+            out.append('struct %s { %s };' % (n, ' '.join(
+                '%s %s%s;' % (T, fn, ':%d' % w if w else '') for fn, T, w in it['fields'])))
+            out.append('size_t sz_%s(void);' % n)
+            for fn, T, w in it['fields']:
+                out.append('long long rd_%s_%s(struct %s *p); void wr_%s_%s(struct %s *p, '
+                           'long long v);' % (n, fn, n, n, fn, n))
+        elif k == 'nconst':
+            out.append('static const char *const %s;' % n if it['ctype'] == 'string' else
+                       'static const %s %s;' % (it['ctype'], n))
+        elif k == 'tdef':
+            if it['dots']:
+                out.append('typedef %s... %s;' % ('int' if it['type'][2] is not None else 'float', n))
+            else:
+                out.append('typedef %s %s;' % (it['type'][0], n))
+            out.append('size_t sz_%s(void); int sg_%s(void);' % (n, n))
     return '\n'.join(out) + '\n'
+
+
+def in_packed(it):
+    return it['kind'] == 'struct' and it['nested'] is None
 
 
 def cdef_structs(items, mutated=None, helpers=False):
     out = []
     for idx, it in enumerate(items):
-        if it['kind'] != 'struct':
+        if not in_packed(it):
             continue
         m = (mutated or {}).get(idx)
-        out.append(render_struct(it['name'], m['fields'] if m else it['fields']))
+        out.append(render_struct(it, m['fields'] if m else it['fields']))
     text = {'text': '\n'.join(out) + '\n', 'kwds': {'packed': True}}
     if not helpers:
         return [text]
     h = []
     for it in items:
-        if it['kind'] == 'struct':
+        if in_packed(it):
             h.append('size_t sz_%s(void);' % it['name'])
             for fn, _, _ in it['fields']:
                 h.append('size_t of_%s_%s(void);' % (it['name'], fn))
     return [text, '\n'.join(h) + '\n']
+
+
+def resized(n, delta=1):
+    """the array length n with its first dimension changed"""
+    d = dims(n)
+    if not d:
+        return 1 + delta
+    d = [d[0] + delta] + d[1:]
+    return d if len(d) > 1 else d[0]
+
+
+def size_only_variants(it):
+    """cdef field lists that change one field's own size but no offset and not the total"""
+    union = is_union(it)
+    f0 = it['fields']
+    l0, t0 = layout(f0, union)
+    res = []
+    for j, (fn, T, n) in enumerate(f0):
+        alts = [(t, n) for t in FT if tclass(t) == tclass(T) and t[1] != T[1]]
+        alts += [(T, resized(n, 1)), (T, resized(n, 2))]
+        if dims(n) and dims(n)[0] >= 2:
+            alts.append((T, resized(n, -1)))
+        for t, n2 in alts:
+            f1 = list(f0)
+            f1[j] = (fn, t, n2)
+            l1, t1 = layout(f1, union)
+            if t1 == t0 and all(a == b for x, (a, b) in enumerate(zip(l0, l1)) if x != j) and \
+                    l1[j][1] == l0[j][1] and l1[j][2] != l0[j][2]:
+                res.append(f1)
+    return res
 
 
 def mutate(seed, items):
@@ -200,34 +477,68 @@ def mutate(seed, items):
             continue
         if it['kind'] == 'struct':
             f = [list(x) for x in it['fields']]
-            op = rnd.choice(['retype', 'remove', 'swap', 'resize-array'])
+            op = rnd.choice(['retype', 'remove', 'swap', 'resize-array', 'size-only', 'size-only',
+                             'offset-only', 'total-only'])
             j = rnd.randrange(len(f))
+            if op == 'total-only':
+                # drop a field so that only the total size changes (the tail of a struct,
+                # the largest member of a union)
+                un = is_union(it)
+                l0, t0 = layout(it['fields'], un)
+                cand = []
+                for x in range(len(f)):
+                    l1, t1 = layout(it['fields'][:x] + it['fields'][x + 1:], un)
+                    if len(f) > 1 and t1 != t0 and l1 == l0[:x] + l0[x + 1:]:
+                        cand.append(x)
+                if cand:
+                    del f[rnd.choice(cand)]
+                else:
+                    op = 'remove'
+            if op == 'size-only':
+                var = size_only_variants(it)
+                if var:
+                    f = [list(x) for x in rnd.choice(var)]
+                else:
+                    op = 'retype'
+            if op == 'offset-only':
+                pairs = [x for x in range(len(f) - 1)
+                         if f[x][1][1] * nelem(f[x][2]) == f[x + 1][1][1] * nelem(f[x + 1][2])
+                         and talign(f[x][1]) == talign(f[x + 1][1])]
+                if pairs and not is_union(it):
+                    x = rnd.choice(pairs)
+                    f[x], f[x + 1] = f[x + 1], f[x]
+                else:
+                    op = 'swap'
             if op == 'retype':
                 # same type class only: the generated compile-time checks reject a
                 # cdef integer field that is a double or a pointer in the source
-                cls = lambda t: 'f' if t[0] in ('float', 'double') else \
-                    ('p' if t[0].endswith('*') else 'i')
-                cand = [t for t in FT if t != tuple(f[j][1]) and cls(t) == cls(f[j][1])
+                cand = [t for t in FT if t != tuple(f[j][1]) and tclass(t) == tclass(f[j][1])
                         and t[1] != f[j][1][1]]
                 if cand:
                     f[j][1] = rnd.choice(cand)
                 else:
-                    f[j][2] = (f[j][2] or 1) + 1
+                    f[j][2] = resized(f[j][2], 1)
             elif op == 'remove' and len(f) > 1:
                 del f[j]
             elif op == 'swap' and len(f) > 1:
                 j2 = (j + 1) % len(f)
                 f[j], f[j2] = f[j2], f[j]
-            else:
+            elif op in ('remove', 'swap', 'resize-array'):
                 op = 'resize-array'
-                f[j][2] = (f[j][2] or 1) + rnd.choice([1, 2])
+                f[j][2] = resized(f[j][2], rnd.choice([1, 2]))
             mut[idx] = {'fields': [tuple(x) for x in f], 'op': op}
         elif it['kind'] == 'const':
             v = it['value']
-            nv = rnd.choice([v + 1, v - 1, -v if v else 7, v * 2 + 1])
-            if it['form'] == 'define' and nv < 0:
-                nv = v + 3
-            mut[idx] = {'value': nv, 'op': 'value'}
+            cand = [(v + 1, 'value'), (v - 1, 'value'), (-v if v else 7, 'value'),
+                    (v * 2 + 1, 'value'), (v + 2 ** 32, 'value-high-bits'),
+                    (v - 2 ** 32, 'value-high-bits'), (v ^ (1 << 40), 'value-high-bits')]
+            if v >= 2 ** 63:
+                cand += [(v - 2 ** 64, 'value-sign-only')] * 3
+            if v < 0:
+                cand += [(v + 2 ** 64, 'value-sign-only')] * 3
+            cand = [c for c in cand if -2 ** 63 <= c[0] <= 2 ** 64 - 1 and c[0] != v]
+            nv, op = rnd.choice(cand)
+            mut[idx] = {'value': nv, 'op': op}
         elif it['kind'] == 'enum':
             vals = list(it['values'])
             j = rnd.randrange(len(vals))
@@ -277,6 +588,12 @@ def child_setup(setup, wd):
     return {'dir': setup['dir']}
 
 
+ISIZE = {'int': (4, 1), 'unsigned int': (4, 0), 'short': (2, 1), 'long': (8, 1),
+         'unsigned long long': (8, 0), 'signed char': (1, 1), 'uint16_t': (2, 0),
+         'unsigned char': (1, 0), 'long long': (8, 1), 'char': (1, 1), 'int8_t': (1, 1),
+         'int64_t': (8, 1), 'unsigned short': (2, 0)}
+
+
 def cconv(T, acc):
     """C conversion of a 64-bit wrapped accumulator to T"""
     acc = (acc + 2 ** 63) % 2 ** 64 - 2 ** 63
@@ -286,8 +603,7 @@ def cconv(T, acc):
         return float(acc)
     if T == 'float':
         return struct.unpack('<f', struct.pack('<f', float(acc)))[0]
-    size, signed = {'int': (4, 1), 'unsigned int': (4, 0), 'short': (2, 1), 'long': (8, 1),
-                    'unsigned long long': (8, 0), 'signed char': (1, 1), 'uint16_t': (2, 0)}[T]
+    size, signed = ISIZE[T]
     v = acc & ((1 << (8 * size)) - 1)
     if signed and v >= 1 << (8 * size - 1):
         v -= 1 << (8 * size)
@@ -299,10 +615,14 @@ def argval(rnd, T):
         return rnd.choice([True, False])
     if T in ('double', 'float'):
         return float(rnd.randint(-1000, 1000))
-    size, signed = {'int': (4, 1), 'unsigned int': (4, 0), 'short': (2, 1), 'long': (8, 1),
-                    'unsigned long long': (8, 0), 'signed char': (1, 1), 'uint16_t': (2, 0)}[T]
+    size, signed = ISIZE[T]
     lo, hi = (-(1 << (8 * size - 1)), (1 << (8 * size - 1)) - 1) if signed else (0, (1 << 8 * size) - 1)
     return rnd.choice([lo, hi, 0, 1, rnd.randint(lo, hi)])
+
+
+ENTRIES = ['new', 'new-array', 'offsetof', 'alignof', 'fields', 'getattr', 'addressof-field',
+           'deref', 'dir', 'new-init']
+_FIRST_VISIT = set()
 
 
 def child_case(st, case):
@@ -316,6 +636,8 @@ def child_case(st, case):
     PA = importlib.import_module(sp[3]['name'])
     PM = importlib.import_module(sp[4]['name'])
     PN = importlib.import_module(sp[5]['name'])
+    first_visit = sp[0]['name'] not in _FIRST_VISIT
+    _FIRST_VISIT.add(sp[0]['name'])
     errs = (A.ffi.error,)
     try:
         from cffi import VerificationError
@@ -323,39 +645,132 @@ def child_case(st, case):
     except ImportError:
         pass
 
+    def ctype_of(mod, it):
+        if it['form'] == 'ptr':
+            return mod.ffi.typeof(it['name'] + '_p').item
+        return mod.ffi.typeof(c_tname(it))
+
+    def ptr_of(mod, it):
+        if it['form'] == 'ptr':
+            return mod.ffi.typeof(it['name'] + '_p')
+        return mod.ffi.typeof(c_tname(it) + ' *')
+
     def use_struct(mod, it, fields):
-        tag = 'struct ' + it['name']
-        size = mod.ffi.sizeof(tag)
-        p = mod.ffi.new(tag + ' *')
-        offs = [(fn, mod.ffi.offsetof(tag, fn)) for fn, _, _ in fields]
+        ct = ctype_of(mod, it)
+        size = mod.ffi.sizeof(ct)
+        p = mod.ffi.new(ptr_of(mod, it))
+        offs = [(fn, mod.ffi.offsetof(ct, fn)) for fn, _, _ in fields]
         return size, offs
+
+    def use_entry(mod, it, fields, e):
+        """touch the aggregate through one API entry point that needs its fields"""
+        ffi = mod.ffi
+        ct, pt = ctype_of(mod, it), ptr_of(mod, it)
+        if e == 'new-array' and it['form'] == 'ptr':
+            e = 'new'
+        if e == 'new':
+            return repr(ffi.new(pt))
+        if e == 'new-init':
+            return repr(ffi.new(pt, {}))
+        if e == 'new-array':
+            # allocating the array only needs the size (the compiler's, like sizeof);
+            # reading an item needs the fields
+            arr = ffi.new(c_tname(it) + '[2]')
+            if ffi.sizeof(arr) != 2 * compiler_layout(it)[0]:
+                return 'array of %d bytes' % ffi.sizeof(arr)
+            return repr(arr[1])
+        if e == 'offsetof':
+            return ffi.offsetof(ct, fields[-1][0])
+        if e == 'alignof':
+            return ffi.alignof(ct)
+        if e == 'fields':
+            return [(n, f.offset) for n, f in ct.fields]
+        buf = ffi.new('char[]', 8192)
+        p = ffi.cast(pt, buf)
+        if e == 'getattr':
+            return repr(getattr(p, fields[0][0]))
+        if e == 'addressof-field':
+            return repr(ffi.addressof(p, fields[-1][0]))
+        if e == 'deref':
+            return repr(p[0])
+        if e == 'dir':
+            return dir(p)
+        raise ValueError(e)
+
+    def attempt_entry(mod, it, fields, e):
+        try:
+            return ('ok', use_entry(mod, it, fields, e))
+        except errs as ex:
+            return ('err', type(ex).__name__, str(ex)[:160])
+        except Exception as ex:
+            return ('other', type(ex).__name__, str(ex)[:160])
+
+    def compiler_layout(it):
+        csz = getattr(A.lib, 'sz_' + it['name'])()
+        real = dict((fn, getattr(A.lib, 'of_%s_%s' % (it['name'], fn))()) for fn, _, _ in it['fields'])
+        return csz, real
+
+    def struct_differs(it, fields):
+        l0, t0 = layout(it['fields'], is_union(it))
+        l1, t1 = layout(fields, is_union(it))
+        orig = dict((n, (o, s)) for n, o, s in l0)
+        if t0 != t1 or any(orig.get(n) != (o, s) for n, o, s in l1):
+            return True
+        if max(talign(T) for _, T, _ in it['fields']) != max(talign(T) for _, T, _ in fields):
+            # only the total alignment differs: cffi reports that too, the property
+            # neither demands nor forbids it
+            return None
+        return False
+
+    def inner_state(it):
+        """(mutation of the nested aggregate or None, does it really differ)"""
+        if it['nested'] is None:
+            return None, False
+        im = mut.get(it['nested'])
+        if im is None:
+            return None, False
+        return im, struct_differs(items[it['nested']], im['fields'])
+
+    exposed = set()
     for idx, it in enumerate(items):
         k = it['kind']
         detail = [case['seed'], case['tag'], idx]
         # ---------------- module A: agreement ----------------
         try:
             if k == 'struct':
-                lay, total = layout(it['fields'])
+                decl0 = render_struct(it)
+                lay, total = layout(it['fields'], is_union(it))
                 size, offs = use_struct(A, it, it['fields'])
                 csz = getattr(A.lib, 'sz_' + it['name'])()
                 coffs = [(fn, getattr(A.lib, 'of_%s_%s' % (it['name'], fn))()) for fn, _, _ in it['fields']]
-                rep.case(('A', render_struct(it['name'], it['fields'])),
-                         nontrivial=len(it['fields']) >= 2,
-                         sample={'module': 'A', 'decl': render_struct(it['name'], it['fields'])})
+                rep.case(('A', decl0), nontrivial=len(it['fields']) >= 2,
+                         sample={'module': 'A', 'decl': decl0})
                 if size != csz or offs != coffs:
                     rep.bad('layout-differs-from-compiler', '%s: ffi size %d offsets %r, compiler '
                             '%d %r' % (it['name'], size, offs, csz, coffs), detail)
                 if total != csz or [(n, o) for n, o, s in lay] != coffs:
                     rep.bad('harness-layout-model', 'model layout differs from the compiler for %s'
-                            % render_struct(it['name'], it['fields']), detail)
+                            % decl0, detail)
+                prim = set(fn for fn, T, n in it['fields'] if tuple(T) in FT)
+                ftypes = [(n, f.type.cname) for n, f in ctype_of(A, it).fields if n in prim]
+                exp = [(fn, T[0] + arr_suffix(n)) for fn, T, n in it['fields'] if fn in prim]
+                norm = lambda l: [(a, b.replace(' ', '')) for a, b in l]
+                if norm(ftypes) != norm(exp):
+                    rep.bad('field-types-differ-from-declaration', '%s: field types %r' %
+                            (decl0, ftypes), detail)
                 rep.stat('A_structs')
+                rep.stat('A_form_' + it['form'])
+                if it['nested'] is not None:
+                    rep.stat('A_structs_with_nested_aggregate')
+                exposed.update(['sz_' + it['name']] + ['of_%s_%s' % (it['name'], fn)
+                                                       for fn, _, _ in it['fields']])
             elif k == 'const':
-                rep.case(('A', k, it['name'], it['value']))
+                rep.case(('A', k, it['name'], it['value'], it['form']))
                 if getattr(A.lib, it['name']) != it['value'] or \
                         A.ffi.integer_const(it['name']) != it['value']:
                     rep.bad('constant-value', '%s = %r, source says %d' %
                             (it['name'], getattr(A.lib, it['name']), it['value']), detail)
-                if it['value'] > 0:
+                if 0 < it['value'] < 2 ** 24:
                     sz = A.ffi.sizeof('char[%s]' % it['name'])
                     sz2 = A.ffi.sizeof(A.ffi.typeof('short(*)[%s]' % it['name']).item)
                     rep.stat('A_constants_as_array_length')
@@ -365,12 +780,19 @@ def child_case(st, case):
                                                                      sz2, it['name'], it['value']),
                                 detail)
                 rep.stat('A_constants')
+                rep.stat('A_constants_' + it['form'])
+                if not -2 ** 31 <= it['value'] < 2 ** 31:
+                    rep.stat('A_constants_beyond_int')
+                if not -2 ** 63 <= it['value'] < 2 ** 63:
+                    rep.stat('A_constants_beyond_long_long')
+                exposed.add(it['name'])
             elif k == 'enum':
                 rep.case(('A', k, it['name'], tuple(it['values'])))
                 for n, v in it['values']:
                     if getattr(A.lib, n) != v:
                         rep.bad('enumerator-value', '%s = %r, source says %d' %
                                 (n, getattr(A.lib, n), v), detail)
+                    exposed.add(n)
                 rep.stat('A_enums')
             elif k == 'func':
                 f = getattr(A.lib, it['name'])
@@ -386,11 +808,29 @@ def child_case(st, case):
                                 (it['ret'], it['name'], ', '.join(it['args']), tuple(args), got, exp),
                                 detail)
                 rep.stat('A_function_calls', 6)
+                exposed.add(it['name'])
+            elif k == 'vfunc':
+                f = getattr(A.lib, it['name'])
+                for cnt in (0, 1, 3, 7):
+                    vals = [rnd.choice([0, -1, 2 ** 40, rnd.randint(-2 ** 62, 2 ** 62)])
+                            for _ in range(cnt)]
+                    exp = cconv('long', it['k'] + sum(vals))
+                    got = f(cnt, *[A.ffi.cast('long long', v) for v in vals])
+                    rep.case(('A', k, it['name'], tuple(vals)))
+                    if got != exp:
+                        rep.bad('function-result', 'variadic %s(%d, %r) returned %r, the C body '
+                                'gives %r' % (it['name'], cnt, vals, got, exp), detail)
+                rep.stat('A_variadic_function_calls', 4)
+                exposed.add(it['name'])
             elif k == 'glob':
                 n, T = it['name'], it['type']
                 rep.case(('A', k, n, T))
-                if getattr(A.lib, n) != it['init'] and not rep.stats.get('seen_' + n):
-                    pass
+                if first_visit:
+                    rep.stat('A_globals_initial_value')
+                    v0 = getattr(A.lib, n)
+                    if v0 != it['init'] or type(v0) is not type(cconv(T, it['init'])):
+                        rep.bad('global-read-differs-from-c', '%s %s = %d in the source, first '
+                                'read through lib gives %r' % (T, n, it['init'], v0), detail)
                 v = argval(rnd, T)
                 setattr(A.lib, n, v)
                 cv = getattr(A.lib, 'get_' + n)()
@@ -407,14 +847,172 @@ def child_case(st, case):
                 if a1 != a2:
                     rep.bad('global-address', '&%s: ffi %#x, C %#x' % (n, a1, a2), detail)
                 rep.stat('A_globals')
+                exposed.update([n, 'get_' + n, 'set_' + n, 'addr_' + n])
+            elif k == 'garr':
+                n, (T, tsz), dd = it['name'], it['type'], it['dims']
+                rep.case(('A', k, n, T, tuple(dd), it['form']))
+                rep.stat('A_global_arrays_' + it['form'] + ('_2d' if len(dd) > 1 else ''))
+                x = getattr(A.lib, n)
+                tn = A.ffi.typeof(x).cname
+                exp_tn = T + (' *' if it['form'] == 'open' else arr_suffix(dd))
+                if tn.replace(' ', '') != exp_tn.replace(' ', ''):
+                    rep.bad('global-array-type', 'lib.%s (%s, source %s%s) has type %s' %
+                            (n, it['form'], T, arr_suffix(dd), tn), detail)
+                a1 = int(A.ffi.cast('uintptr_t', x))
+                a2 = int(A.ffi.cast('uintptr_t', getattr(A.lib, 'addr_' + n)()))
+                if a1 != a2:
+                    rep.bad('global-address', '%s: ffi %#x, C %#x' % (n, a1, a2), detail)
+                if it['form'] != 'open':
+                    a3 = int(A.ffi.cast('uintptr_t', A.ffi.addressof(A.lib, n)))
+                    csz = getattr(A.lib, 'sz_' + n)()
+                    if a3 != a2 or A.ffi.sizeof(x) != csz or len(x) != dd[0]:
+                        rep.bad('global-array-size', '%s: addressof %#x (C %#x), sizeof %r (C %d), '
+                                'len %r (C %d)' % (n, a3, a2, A.ffi.sizeof(x), csz, len(x), dd[0]),
+                                detail)
+                flat = A.ffi.cast(T + ' *', x)
+                for i in range(nelem(dd)):
+                    el = x[i // dd[1]][i % dd[1]] if len(dd) > 1 else x[i]
+                    if first_visit and el != i + 1:
+                        rep.bad('global-read-differs-from-c', '%s element %d is %d in the source, '
+                                'lib reads %r' % (n, i, i + 1, el), detail)
+                    v = argval(rnd, T)
+                    if len(dd) > 1:
+                        x[i // dd[1]][i % dd[1]] = v
+                    else:
+                        x[i] = v
+                    cv = getattr(A.lib, 'get_' + n)(i)
+                    if cv != v or flat[i] != v:
+                        rep.bad('global-write-not-seen-by-c', '%s element %d = %r through lib, C '
+                                'reads %r' % (n, i, v, cv), detail)
+                exposed.update([n, 'get_' + n, 'addr_' + n, 'sz_' + n])
+            elif k == 'gptr':
+                n, (T, tsz) = it['name'], it['type']
+                rep.case(('A', k, n, T))
+                rep.stat('A_global_pointers')
+                p = getattr(A.lib, n)
+                if first_visit and (p[0] != 11 or getattr(A.lib, 'get_' + n)() != 11):
+                    rep.bad('global-read-differs-from-c', '%s *%s points to 11, lib reads %r' %
+                            (T, n, p[0]), detail)
+                base = p if first_visit else p - 1
+                setattr(A.lib, n, base + 1)
+                cv = getattr(A.lib, 'get_' + n)()
+                if cv != 22 or getattr(A.lib, n) != base + 1:
+                    rep.bad('global-write-not-seen-by-c', '%s advanced through lib, C reads %r' %
+                            (n, cv), detail)
+                a1 = int(A.ffi.cast('uintptr_t', A.ffi.addressof(A.lib, n)))
+                a2 = int(A.ffi.cast('uintptr_t', getattr(A.lib, 'addr_' + n)()))
+                if a1 != a2:
+                    rep.bad('global-address', '&%s: ffi %#x, C %#x' % (n, a1, a2), detail)
+                exposed.update([n, 'get_' + n, 'addr_' + n])
+            elif k == 'gstruct':
+                n, sit = it['name'], items[it['struct']]
+                rep.case(('A', k, n, render_struct(sit)))
+                rep.stat('A_global_structs')
+                x = getattr(A.lib, n)
+                a1 = int(A.ffi.cast('uintptr_t', A.ffi.addressof(A.lib, n)))
+                a0 = int(A.ffi.cast('uintptr_t', A.ffi.addressof(x)))
+                a2 = int(A.ffi.cast('uintptr_t', getattr(A.lib, 'addr_' + n)()))
+                if a1 != a2 or a0 != a2 or A.ffi.typeof(x) is not ctype_of(A, sit):
+                    rep.bad('global-address', '&%s: ffi %#x / %#x, C %#x; type %s' %
+                            (n, a1, a0, a2, A.ffi.typeof(x)), detail)
+                if it['field']:
+                    T = [t for fn, t, _ in sit['fields'] if fn == it['field']][0][0]
+                    v = argval(rnd, T)
+                    setattr(x, it['field'], v)
+                    cv = getattr(A.lib, 'get_' + n)()
+                    if cv != v:
+                        rep.bad('global-write-not-seen-by-c', '%s.%s = %r through lib, C reads %r'
+                                % (n, it['field'], v, cv), detail)
+                    # whole-struct assignment through lib
+                    v2 = argval(rnd, T)
+                    tmp = A.ffi.new(ptr_of(A, sit))
+                    setattr(tmp, it['field'], v2)
+                    setattr(A.lib, n, tmp[0])
+                    cv = getattr(A.lib, 'get_' + n)()
+                    if cv != v2 or getattr(getattr(A.lib, n), it['field']) != v2:
+                        rep.bad('global-write-not-seen-by-c', '%s = <struct with %s = %r> through '
+                                'lib, C reads %r' % (n, it['field'], v2, cv), detail)
+                    exposed.add('get_' + n)
+                exposed.update([n, 'addr_' + n])
+            elif k == 'bstruct':
+                n = it['name']
+                decl0 = 'struct %s { %s };' % (n, ' '.join(
+                    '%s %s%s;' % (T, fn, ':%d' % w if w else '') for fn, T, w in it['fields']))
+                rep.case(('A', decl0), sample={'module': 'A', 'decl': decl0})
+                rep.stat('A_structs_with_bitfields')
+                p = A.ffi.new('struct %s *' % n)
+                csz = getattr(A.lib, 'sz_' + n)()
+                if A.ffi.sizeof('struct ' + n) != csz or A.ffi.sizeof(p[0]) != csz:
+                    rep.bad('layout-differs-from-compiler', '%s: ffi size %d, compiler %d' %
+                            (decl0, A.ffi.sizeof('struct ' + n), csz), detail)
+                last = {}
+
+                def frange(T, w):
+                    bits = w or 8 * ISIZE[T][0]
+                    if ISIZE[T][1]:
+                        return -(1 << (bits - 1)), (1 << (bits - 1)) - 1
+                    return 0, min((1 << bits) - 1, 2 ** 63 - 1)
+                for rnd_ in range(3):
+                    for fn, T, w in it['fields']:
+                        lo, hi = frange(T, w)
+                        v = rnd.choice([lo, hi, rnd.randint(lo, hi)])
+                        if rnd.random() < 0.5:
+                            setattr(p, fn, v)
+                        else:
+                            getattr(A.lib, 'wr_%s_%s' % (n, fn))(p, v)
+                        last[fn] = v
+                        rep.stat('A_bitfield_accesses' if w else 'A_plain_field_accesses_next_to_bitfields')
+                        # every field, through both sides, still holds its last value
+                        for f2, v2 in last.items():
+                            got_py = getattr(p, f2)
+                            got_c = getattr(A.lib, 'rd_%s_%s' % (n, f2))(p)
+                            if got_py != v2 or got_c != v2:
+                                rep.bad('bitfield-struct-differs-from-compiler', '%s: after '
+                                        'writing %s = %d: %s reads %r through cffi, %r through C, '
+                                        'expected %d' % (decl0, fn, v, f2, got_py, got_c, v2),
+                                        detail)
+                exposed.add('sz_' + n)
+                exposed.update('rd_%s_%s' % (n, fn) for fn, T, w in it['fields'])
+                exposed.update('wr_%s_%s' % (n, fn) for fn, T, w in it['fields'])
+            elif k == 'nconst':
+                rep.case(('A', k, it['name'], it['ctype']))
+                rep.stat('A_non_integer_constants')
+                got = getattr(A.lib, it['name'])
+                if it['ctype'] == 'string':
+                    got = A.ffi.string(got).decode()
+                if got != it['value']:
+                    rep.bad('constant-value', '%s %s = %r, source says %r' %
+                            (it['ctype'], it['name'], got, it['value']), detail)
+                exposed.add(it['name'])
+            elif k == 'tdef':
+                n, (T, tsz, tsg) = it['name'], it['type']
+                rep.case(('A', k, n, T, it['dots']))
+                rep.stat('A_typedefs_dotdotdot' if it['dots'] else 'A_typedefs_exact')
+                csz = getattr(A.lib, 'sz_' + n)()
+                csg = getattr(A.lib, 'sg_' + n)()
+                sz = A.ffi.sizeof(n)
+                if tsg is None:
+                    same = A.ffi.typeof(n) is A.ffi.typeof(T)
+                    sg = csg
+                else:
+                    sg = int(int(A.ffi.cast(n, -1)) < 0)
+                    same = A.ffi.typeof(n) is A.ffi.typeof(T) or \
+                        (it['dots'] and A.ffi.typeof(n).kind == 'primitive')
+                if sz != csz or sg != csg or not same or csz != tsz:
+                    rep.bad('typedef-differs-from-compiler', 'typedef %s%s %s: ffi says %s, size '
+                            '%d, signed %d; the compiler size %d, signed %d' %
+                            (T, '...' if it['dots'] else '', n, A.ffi.typeof(n), sz, sg, csz, csg),
+                            detail)
+                exposed.update(['sz_' + n, 'sg_' + n])
         except Exception as e:
             rep.bad('agreement-raised:%s:%s' % (k, type(e).__name__), '%s %s in the agreeing '
                     'module raised %s: %s' % (k, it['name'], type(e).__name__, str(e)[:200]), detail)
         # ---------------- packed modules ----------------
-        if k == 'struct':
-            pl0, pt0 = packed_layout(it['fields'])
-            nl0, nt0 = layout(it['fields'])
-            decl0 = render_struct(it['name'], it['fields'])
+        if k == 'struct' and in_packed(it):
+            un = is_union(it)
+            pl0, pt0 = packed_layout(it['fields'], un)
+            nl0, nt0 = layout(it['fields'], un)
+            decl0 = render_struct(it)
             try:
                 size, offs = use_struct(PA, it, it['fields'])
                 csz = getattr(PA.lib, 'sz_' + it['name'])()
@@ -443,8 +1041,10 @@ def child_case(st, case):
                     return ('other', type(e).__name__, str(e)[:160])
             # cdef(packed=True) over an unpacked source
             rN = pattempt(PN, it['fields'])
-            # cffi also compares the total alignment (1 when packed)
-            ndiff = nt0 != pt0 or nl0 != pl0 or any(sz > 1 for _, (T, sz), n in it['fields'])
+            # cffi also compares the total alignment (1 when packed), except for a struct
+            # only known through a pointer typedef (its alignment is not measured)
+            ndiff = nt0 != pt0 or nl0 != pl0 or \
+                (it['form'] != 'ptr' and any(talign(T) > 1 for _, T, n in it['fields']))
             rep.case(('PN', decl0), nontrivial=len(it['fields']) >= 2)
             rep.stat('PN_structs_with_padding' if ndiff else 'PN_structs_without_padding')
             if ndiff and rN[0] == 'ok':
@@ -459,10 +1059,10 @@ def child_case(st, case):
             # packed source, packed mutated cdef
             pm = mut.get(idx)
             if pm is not None:
-                pl1, pt1 = packed_layout(pm['fields'])
+                pl1, pt1 = packed_layout(pm['fields'], un)
                 orig = dict((n, (o, s_)) for n, o, s_ in pl0)
                 pdiff = pt0 != pt1 or any(orig.get(n) != (o, s_) for n, o, s_ in pl1)
-                decl1 = render_struct(it['name'], pm['fields'])
+                decl1 = render_struct(it, pm['fields'])
                 rP = pattempt(PM, pm['fields'])
                 rep.case(('PM', decl1), sample={'module': 'PM (packed)', 'mutation': pm['op'],
                                                 'decl': decl1})
@@ -488,6 +1088,7 @@ def child_case(st, case):
         if k not in ('struct', 'const', 'enum'):
             continue
         m = mut.get(idx)
+        im, idiff = inner_state(it) if k == 'struct' else (None, False)
 
         def attempt(mod):
             try:
@@ -501,39 +1102,146 @@ def child_case(st, case):
                 return ('err', type(e).__name__, str(e)[:160])
             except Exception as e:
                 return ('other', type(e).__name__, str(e)[:160])
-        rM = attempt(M)
+
+        def from_compiler(r, fields):
+            size, offs = r
+            csz, real = compiler_layout(it)
+            return size == csz and not [1 for fn, o in offs if fn in real and real[fn] != o]
+
+        def judge_outer_of_mismatching(r, what):
+            # embeds a really mismatching aggregate: an error is fine; success must
+            # show the compiler's layout
+            rep.stat(what + '_outer_of_mismatching_inner')
+            if r[0] == 'other':
+                rep.bad('mismatch-wrong-exception:struct', '%s: %r' % (render_struct(it), r), detail)
+            elif r[0] == 'ok' and not from_compiler(r[1], it['fields']):
+                rep.bad('layout-differs-from-compiler', '%s embeds the mismatching %s; using it '
+                        'gave %r' % (render_struct(it), items[it['nested']]['name'], r[1]), detail)
+            elif r[0] == 'err':
+                rep.stat(what + '_outer_of_mismatching_inner_raised')
         if m is None:
+            rM = attempt(M)
             rep.case(('M-neighbour', k, it['name']))
             rep.stat('M_unmutated_neighbours')
-            if rM[0] != 'ok':
+            if idiff:
+                judge_outer_of_mismatching(rM, 'M')
+            elif rM[0] != 'ok':
                 rep.bad('unmutated-item-raised:' + k, '%s %s is not mutated but using it in the '
                         'mutated module raised %r' % (k, it['name'], rM), detail)
+            # module D: the exact declaration next to '...' ones; arrays may be '[...]'
+            if k == 'struct':
+                dotarr = it['dotarr'] and it['form'] != 'ptr' and \
+                    any(n for _, _, n in it['fields'])
+                inner_unjudged = im is not None and im['op'] in FIELD_SIZE_OPS
+                if inner_unjudged:
+                    rep.stat('D_skipped_field_size_mutations')
+                    continue
+                rD = attempt(D)
+                rep.case(('D-neighbour', render_struct(it, dotarr=dotarr)))
+                rep.stat('D_structs_with_dotdotdot_array_lengths' if dotarr else
+                         'D_unmutated_neighbours')
+                if rD[0] != 'ok':
+                    rep.bad("dotdotdot-raised:struct" if dotarr else 'unmutated-item-raised:struct',
+                            "%s in the '...' module raised %r" % (render_struct(it, dotarr=dotarr),
+                                                                  rD), detail)
+                else:
+                    prim = set(fn for fn, T, n in it['fields'] if tuple(T) in FT)
+                    ftypes = [(n, f.type.cname.replace(' ', '')) for n, f in ctype_of(D, it).fields
+                              if n in prim]
+                    exp = [(fn, (T[0] + arr_suffix(n)).replace(' ', '')) for fn, T, n in it['fields']
+                           if fn in prim]
+                    if not from_compiler(rD[1], it['fields']) or ftypes != exp:
+                        rep.bad('dotdotdot-layout-not-from-compiler', "%s: size/offsets %r, field "
+                                'types %r, the source declares %r' %
+                                (render_struct(it, dotarr=dotarr), rD[1], ftypes, exp), detail)
+                    if dotarr and any(len(dims(n)) > 1 for _, _, n in it['fields']):
+                        rep.stat('D_structs_with_2d_dotdotdot_array_lengths')
             continue
         if k == 'struct':
-            l0, t0 = layout(it['fields'])
-            l1, t1 = layout(m['fields'])
-            orig = dict((n, (o, s)) for n, o, s in l0)
-            differs = t0 != t1 or any(orig.get(n) != (o, s) for n, o, s in l1)
-            decl = render_struct(it['name'], m['fields'])
+            differs = struct_differs(it, m['fields'])
+            decl = render_struct(it, m['fields'])
         elif k == 'const':
             differs = m['value'] != it['value']
             decl = '%s=%d (source %d)' % (it['name'], m['value'], it['value'])
         else:
             differs = True
             decl = '%s %r (source %r)' % (it['name'], m['values'], it['values'])
-        rep.case(('M', k, decl), sample={'module': 'M', 'mutation': m['op'], 'decl': decl})
         rep.stat('M_mutated_' + m['op'])
-        if differs and rM[0] == 'ok':
-            rep.bad('mismatch-not-detected:%s:%s' % (k, m['op']), 'cdef %s disagrees with the C '
-                    'source but using it gave %r' % (decl, rM[1]), detail)
-        elif differs and rM[0] == 'other':
-            rep.bad('mismatch-wrong-exception:' + k, '%s: %r' % (decl, rM), detail)
-        elif not differs and rM[0] != 'ok':
-            rep.bad('harmless-mutation-raised:' + k, '%s has the same layout but raised %r' %
-                    (decl, rM), detail)
-        elif differs:
-            rep.stat('M_mismatches_detected')
-        if k == 'const' and differs and m['value'] > 0 and it['value'] > 0:
+        if k == 'struct':
+            rep.stat('M_mutated_form_' + it['form'])
+        if k == 'struct' and differs:
+            # first touch through a random entry point, then another one, then the usual
+            e1, e2 = rnd.sample(ENTRIES, 2)
+            rep.case(('M', k, decl, e1), sample={'module': 'M', 'mutation': m['op'], 'decl': decl,
+                                                 'entry': e1})
+            r1 = attempt_entry(M, it, m['fields'], e1)
+            rep.stat('M_first_entry_' + e1)
+            if r1[0] == 'ok':
+                rep.bad('mismatch-not-detected:%s:%s' % (k, m['op']), 'cdef %s disagrees with the '
+                        'C source %s but %s on it gave %r' % (decl, render_struct(it), e1, r1[1]),
+                        detail)
+            elif r1[0] == 'other':
+                rep.bad('mismatch-wrong-exception:' + k, '%s: %s: %r' % (decl, e1, r1), detail)
+            r2 = attempt_entry(M, it, m['fields'], e2)
+            rM = attempt(M)
+            rep.stat('M_reuse_after_error')
+            if r1[0] == 'err' and (r2[0] == 'ok' or rM[0] == 'ok'):
+                rep.bad('mismatch-not-detected-on-reuse:' + k, 'cdef %s disagrees with the C source'
+                        ' %s; %s raised %r, but afterwards %s gave %r and new+offsetof %r' %
+                        (decl, render_struct(it), e1, r1[1:], e2, r2, rM), detail)
+            elif r2[0] == 'other' or rM[0] == 'other':
+                rep.bad('mismatch-wrong-exception:' + k, '%s: %s: %r, then %r' % (decl, e2, r2, rM),
+                        detail)
+            try:
+                sz = M.ffi.sizeof(ctype_of(M, it))
+                if sz != compiler_layout(it)[0]:
+                    rep.bad('mismatch-not-detected:%s:sizeof' % k, 'cdef %s disagrees with the C '
+                            'source; sizeof gave %r, not the compiler\'s %d' %
+                            (decl, sz, compiler_layout(it)[0]), detail)
+            except errs:
+                pass
+            if r1[0] == 'err' and r2[0] == 'err' and rM[0] == 'err':
+                rep.stat('M_mismatches_detected')
+        else:
+            rM = attempt(M)
+            rep.case(('M', k, decl), sample={'module': 'M', 'mutation': m['op'], 'decl': decl})
+            if k == 'struct' and idiff:
+                judge_outer_of_mismatching(rM, 'M')
+            elif differs is None:
+                rep.stat('M_alignment_only_mutations_not_judged')
+                if rM[0] == 'other':
+                    rep.bad('mismatch-wrong-exception:' + k, '%s: %r' % (decl, rM), detail)
+            elif differs and rM[0] == 'ok':
+                rep.bad('mismatch-not-detected:%s:%s' % (k, m['op']), 'cdef %s disagrees with the C '
+                        'source but using it gave %r' % (decl, rM[1]), detail)
+            elif differs and rM[0] == 'other':
+                rep.bad('mismatch-wrong-exception:' + k, '%s: %r' % (decl, rM), detail)
+            elif not differs and rM[0] != 'ok':
+                rep.bad('harmless-mutation-raised:' + k, '%s has the same layout but raised %r' %
+                        (decl, rM), detail)
+            elif differs:
+                rep.stat('M_mismatches_detected')
+            else:
+                rep.stat('M_harmless_mutations')
+        if k == 'const' and differs:
+            # the other ways of reading the constant, and reading it again
+            rs = []
+            for how in ('integer_const', 'getattr', 'integer_const'):
+                try:
+                    rs.append(('ok', M.ffi.integer_const(it['name']) if how == 'integer_const'
+                               else getattr(M.lib, it['name'])))
+                except errs as e:
+                    rs.append(('err',))
+                except Exception as e:
+                    rs.append(('other', type(e).__name__, str(e)[:160]))
+            rep.stat('M_constants_reread')
+            if any(r[0] == 'ok' for r in rs) and rM[0] == 'err':
+                rep.bad('mismatch-not-detected-on-reuse:const', 'cdef %s disagrees with the C '
+                        'source; lib.%s raised, then integer_const / lib.%s / integer_const gave %r'
+                        % (decl, it['name'], it['name'], rs), detail)
+            elif any(r[0] == 'other' for r in rs):
+                rep.bad('mismatch-wrong-exception:const', '%s: %r' % (decl, rs), detail)
+        if k == 'const' and differs and 0 < m['value'] < 2 ** 24 and 0 < it['value'] < 2 ** 24:
             # the mismatching constant used as an array length inside a type string
             for ts in ('char[%s]', 'int(*)[%s]', 'void(*)(short[2][%s])'):
                 ts = ts % it['name']
@@ -552,8 +1260,12 @@ def child_case(st, case):
         # with '...': silently the compiler's layout / value.  A field whose *own*
         # declared size is wrong (retyped / resized array) is still reported by cffi
         # in a partial struct ('...' only frees offsets and total size): not judged.
-        if k == 'struct' and m['op'] in ('retype', 'resize-array'):
+        if k == 'struct' and (m['op'] in FIELD_SIZE_OPS or
+                              (im is not None and im['op'] in FIELD_SIZE_OPS)):
             rep.stat('D_skipped_field_size_mutations')
+            continue
+        if k == 'struct' and it['form'] == 'ptr':
+            rep.stat('D_skipped_pointer_typedef_only')
             continue
         rD = attempt(D)
         rep.case(('D', k, decl))
@@ -561,17 +1273,46 @@ def child_case(st, case):
         if rD[0] != 'ok':
             rep.bad('dotdotdot-raised:' + k, "%s declared with '...' raised %r" % (decl, rD), detail)
         elif k == 'struct':
-            size, offs = rD[1]
-            csz = getattr(A.lib, 'sz_' + it['name'])()
-            real = dict((fn, getattr(A.lib, 'of_%s_%s' % (it['name'], fn))()) for fn, _, _ in it['fields'])
-            bad = [(fn, o) for fn, o in offs if fn in real and real[fn] != o]
-            if size != csz or bad:
+            if not from_compiler(rD[1], it['fields']):
                 rep.bad('dotdotdot-layout-not-from-compiler', "%s with '...': size %d offsets %r, "
-                        'compiler %d %r' % (decl, size, offs, csz, real), detail)
+                        'compiler %r' % ((decl,) + tuple(rD[1]) + (compiler_layout(it),)), detail)
         elif k == 'const' and rD[1] != it['value']:
             rep.bad('dotdotdot-value-not-from-compiler', '%s: %r' % (decl, rD[1]), detail)
         elif k == 'enum' and rD[1] != [v for n, v in it['values']]:
             rep.bad('dotdotdot-value-not-from-compiler', '%s: %r' % (decl, rD[1]), detail)
+    # ---------------- module A: every declared name is exposed ----------------
+    detail = [case['seed'], case['tag'], -1]
+    try:
+        names = set(dir(A.lib))
+        tds, sts, uns = A.ffi.list_types()
+        rep.case(('A', 'exposure', case['seed']))
+        rep.stat('A_exposed_names_compared', len(exposed))
+        missing = sorted(exposed - names)
+        extra = sorted(names - exposed)
+        exp_t = set([it['name'] for it in items if it['kind'] == 'tdef'] +
+                    [it['name'] + '_t' for it in items if it['kind'] == 'struct' and
+                     it['form'] in ('anon', 'anon-union', 'tdef')] +
+                    [it['name'] + '_p' for it in items if it['kind'] == 'struct' and
+                     it['form'] == 'ptr'])
+        exp_s = set(it['name'] for it in items if (it['kind'] == 'struct' and
+                                                   it['form'] in ('tag', 'tdef')) or
+                    it['kind'] == 'bstruct')
+        exp_u = set(it['name'] for it in items if it['kind'] == 'struct' and it['form'] == 'union')
+        mt = sorted((exp_t - set(tds)) | (exp_s - set(sts)) | (exp_u - set(uns)))
+        rep.stat('A_exposed_types_compared', len(exp_t) + len(exp_s) + len(exp_u))
+        if missing or extra or mt:
+            rep.bad('declared-name-not-exposed', 'dir(lib) lacks %r, has undeclared %r; '
+                    'list_types() lacks %r' % (missing, extra, mt), detail)
+        d = A.lib.__dict__
+        if set(d) != names - set(x['name'] for x in items
+                                 if x['kind'] in ('glob', 'garr', 'gptr', 'gstruct')) and \
+                set(d) != names:
+            rep.bad('declared-name-not-exposed', 'lib.__dict__ has %r, dir(lib) %r' %
+                    (sorted(set(d) ^ names), len(names)), detail)
+    except Exception as e:
+        rep.bad('agreement-raised:exposure:%s' % type(e).__name__, 'dir(lib) / list_types() / '
+                'lib.__dict__ of the agreeing module raised %s: %s' %
+                (type(e).__name__, str(e)[:200]), detail)
     return rep.result()
 
 
